@@ -23,13 +23,12 @@ Profiles
   xmesh      out-of-contract stream: set_shared(false)/set_persistent called on a mesh with a property of ANOTHER
              mesh or of a destroyed mesh, operations on dead variables, out-of-range writes.  Correspondence only.
 
-What the normal streams deliberately avoid (each has ONE corpus script, corpus/registry/*.scripts):
-  * set_name on a property that may be shared (KNOWN: D10),
-  * create_shared/create_persistent with the empty name (KNOWN: anonymous shared property),
-  * making a Vec3d vertex property persistent (a persistent "ovm:position" makes copy construction dereference an
-    empty optional),
-because after the first two the result of later lookups depends on std::set<pointer> order (not reproducible),
-and the third ends the process.
+What the normal streams deliberately avoid:
+  * set_name on a property that may be shared (KNOWN finding D10; corpus/registry/known-findings.scripts replays it):
+    afterwards the result of lookups depends on std::set<pointer> order (not reproducible),
+  * making a Vec3d vertex property OTHER than the mesh's own position property persistent: a user-made persistent
+    "ovm:position" next to an anonymised position property is overwritten with the positions by copy construction
+    (corner excluded by the hypothesis pos_key_own of C13_copy_equal).
 """
 import itertools, os, sys
 
@@ -77,9 +76,9 @@ class Script:
     def val(self, ty):
         v = self.r.below(90) + 1
         return v % 2 if ty == "bool" else v
-    def new_sid(self, private_certain, kind, ty, mesh):
+    def new_sid(self, private_certain, kind, ty, mesh, own_pos=False):
         s = self.nsid; self.nsid += 1
-        self.st[s] = {"private_certain": private_certain, "vec_v": (kind == "V" and ty == "vec3d"), "mesh": mesh}
+        self.st[s] = {"private_certain": private_certain, "vec_v": (kind == "V" and ty == "vec3d"), "mesh": mesh, "own_pos": own_pos}
         return s
     def all_private(self, m, kind=None):
         for s in self.st.values():
@@ -113,7 +112,7 @@ class Script:
         return h
     def pos(self, m):
         h = self.new_h(); self.emit("Pos", h, m)
-        if m in self.mesh_alive: self.h[h] = {"sid": self.new_sid(False, "V", "vec3d", m), "certain": True}
+        if m in self.mesh_alive: self.h[h] = {"sid": self.new_sid(False, "V", "vec3d", m, own_pos=True), "certain": True}
         return h
     def hcopy(self, src, move=False):
         h = self.new_h(); self.emit("HMove" if move else "HCopy", h, src)
@@ -135,7 +134,11 @@ class Script:
     def may_set_name(self, h):
         return h in self.h and self.h[h]["certain"] and self.st[self.h[h]["sid"]]["private_certain"]
     def may_persist(self, h):
-        return h in self.h and not self.st[self.h[h]["sid"]]["vec_v"]
+        # a mesh's OWN position property (handle obtained through vertex_positions()) may be made persistent: copies then
+        # find the clone in make_prop().  Any other Vec3d vertex property may not: a user-made persistent "ovm:position"
+        # next to an anonymised position property is the corner excluded by CopyProofs.pos_key_own.
+        st = self.st[self.h[h]["sid"]] if h in self.h else None
+        return st is not None and (not st["vec_v"] or st["own_pos"])
     def clearprops(self, m, kind):
         self.emit("ClearProps", m, kind)
         # only that kind becomes private for sure; the shadow does not track kinds per storage id -> leave as is
@@ -309,6 +312,7 @@ def gen_copy(r, nops):
         if r.chance(1, 4): s.hdrop(h)
     pa = s.pos(a)
     for i in range(3): s.emit("HSet", pa, i, 10 + i + r.below(50))
+    if r.chance(1, 4): s.setpersistent(a, pa, 1)     # persistent position property: make_prop() finds the clone
     # the other side
     mode = r.weighted([("copy", 4), ("assign_fresh", 3), ("assign_used", 5), ("self", 1), ("chain", 2)])
     if mode == "copy":
